@@ -42,12 +42,19 @@ func (c *countingReader) Read(p []byte) (int, error) {
 // CID and the varint length for the block data).
 func CountingLinkSystem(ls ipld.LinkSystem) (ipld.LinkSystem, ReadCounter) {
 	c := counter{}
+	// A block is written to the CAR once, however often the traversal loads it (see
+	// TeeingLinkSystem), so only its first load counts towards the size.
+	seen := make(map[string]struct{})
 	clc := ls
 	clc.StorageReadOpener = func(lc linking.LinkContext, l ipld.Link) (io.Reader, error) {
 		r, err := ls.StorageReadOpener(lc, l)
 		if err != nil {
 			return nil, err
 		}
+		if _, ok := seen[l.Binary()]; ok {
+			return r, nil
+		}
+		seen[l.Binary()] = struct{}{}
 		buf := bytes.NewBuffer(nil)
 		n, err := buf.ReadFrom(r)
 		if err != nil {
